@@ -27,7 +27,7 @@ from irispie.fords import covariances as COV
 from .common import Ctx, rat_of_float, VERIF
 
 DRIVERS = ["C15"]
-EXTRA_PROPS = ['BridgeC15', 'QMatSolveBridge', 'GenTieCore', 'GenTieC15']   # refinement bridge from the executable QMat model to the matrix-level theorems (audited with this check)
+EXTRA_PROPS = ['BridgeC15', 'QMatSolveBridge', 'GenTieCore', 'GenTieC15', 'C15Compose']   # refinement bridge from the executable QMat model to the matrix-level theorems (audited with this check)
 LEVEL = "proof"
 MANIFEST = {
     "category": "proof",
@@ -39,7 +39,7 @@ MANIFEST = {
              "solution is unique when that matrix is non-singular and, for real matrices, under a contraction hypothesis (some power of T has operator "
              "norm product < 1); scaling every std by s scales every Gamma_j by s^2; the autocorrelation has unit diagonal, squares to "
              "gamma^2/(d_i d_j) and is 0 under the zero-variance guard; in the executable model a cell is NaN exactly when its row or its column variable "
-             "loads on a unit-root column; the rows reported are exactly the zero-shift tokens of the joint vector in vector order; a solved variant is a state machine under rescale_stds(f, kind) call histories (kinds with an empty selection included): the solution matrices are never touched and every std^2 in force is the original times the squared cumulative factor of its own kind, so get_acov is a function of (solution, stds in force) only. The executable model is tied to irispie on every run: exact NaN-pattern comparison and tolerance comparison "
+             "loads on a unit-root column; the rows reported are exactly the zero-shift tokens of the joint vector in vector order; a solved variant is a state machine under rescale_stds(f, kind) call histories (kinds with an empty selection included): the solution matrices are never touched and every std^2 in force is the original times the squared cumulative factor of its own kind, so get_acov is a function of (solution, stds in force) only; the mask of a measurement variable depends on Za[:, :nu] and the tolerance only; the model refuses (none) exactly when its checked Lyapunov solve does. Props/C15Compose.lean composes the stages: an answer of the model on the zero-shift selection is the certified, unique (det(I - T(x)T) != 0) stationary covariance of the stable block, propagated as A^j Gamma_0, reported on exactly the zero-shift rows with NaN exactly on rows/columns loading on unit-root states. The executable model is tied to irispie on every run: exact NaN-pattern comparison and tolerance comparison "
              "of get_acov/get_acorr/rescale_stds against the exact rational Lyapunov solution computed from the implementation's own solution matrices, "
              "plus the exact fixed-point residual of the implementation's cov_triangular_00 (certificate validation per generated model)."),
     "design": "7/C15",
